@@ -694,7 +694,7 @@ pub fn check_readers(c: &Case) -> CheckResult {
 
     // read_message_into (dirty, reused buffer)
     let mut r = mk();
-    let mut buf = vec![0xEE; 61];
+    let mut buf = vec![0xEE; 6000];
     let got = repe::read_message_into(&mut r, &mut buf)
         .map_err(|e| e.to_string())
         .and_then(|_| split_frame(&buf));
@@ -712,7 +712,7 @@ pub fn check_readers(c: &Case) -> CheckResult {
         let mut r1 = mk();
         let a = repe::async_io::read_message_async(&mut r1).await;
         let mut r2 = mk();
-        let mut buf = vec![0xEE; 13];
+        let mut buf = vec![0xEE; 6000];
         let b = repe::async_io::read_message_into_async(&mut r2, &mut buf).await;
         (a, r1.consumed(), b.map(|_| buf), r2.consumed())
     });
